@@ -64,6 +64,7 @@ LEVEL_NOTE = ("Trusted: Lean kernel; axioms propext/Classical.choice/Quot.sound 
               "(true for names without class word, not proved). stanza_family keeps the hypothesis 'no line is a banner start': an unanchored "
               "'aaa authentication fail-message' inside a description would make the line a banner start.")
 LEVEL_NOTE += (" " + "regexes_as_modelled (Ccp.RxC19): the scan set (regex calls with pattern text and flags, keyword / slice comparisons, separators) of each of the 28 modelled accessors of models_cisco.py (incl. _RE_IP_ROUTE in canonical verbose form) is re-read from /repo's AST on every run and proved equal to the literals the token matchers of Model/IosModels.lean were written for; the scan sets of CiscoIOSInterface (C15) and CiscoRange integer parsing (C14), which ordinal_list / trunk_vlans_allowed go through, are conjuncts too. An edit of any of these regexes breaks an obligation of this check.")
+LEVEL_NOTE += (" Scan sets as revised: regexes_as_modelled ties the regex-engine calls with the pattern in canonical form (canonical verbose form without the flag, group names and redundant escapes removed, per-value specialisation of a pattern passed to a same-file helper or built from a name that ranges over a constant collection, always-true searches left out), flags, re.sub replacements and the separator arguments of str.split/join/replace/strip; the literal tests (\"lit\" in x, == against string literals and their subscripts, startswith) are informational definitions Gen.rx...Info, no theorem is about them.")
 EXHAUSTIVE = {"quick": False, "thorough": False}
 ASSUMPTIONS = [
     "no line-break character inside a config line; ASCII digits only",
